@@ -177,7 +177,116 @@ def build(sc):
     return env
 
 
+def run_slc(sc):
+    """SLC read / write with a device fault on the PCCC reply (STS byte, CIP status, encapsulation error,
+    truncation, corruption)"""
+    from . import slc as slc_engine
+    env = slc_engine.build(sc)
+    sim, net, world = env.sim, env.net, env.world
+    hits = world.hits
+    kind = sc["kind"]
+    fault = sc["fault"]
+    mut = fault["mut"]
+    state = {"armed": False, "delivered": None}
+
+    def hook(frame, info):
+        if not state["armed"] or state["delivered"] is not None or info.get("service") != 0x4B:
+            return frame
+        try:
+            if mut["type"] == "pccc_sts":
+                b = bytearray(frame)
+                if len(b) > 58:
+                    b[58] = mut["sts"]
+                    if mut.get("drop_data"):
+                        b = b[:61]
+                        b[2:4] = struct.pack("<H", len(b) - 24)
+                        # fix the connected data item length (offset 42..43)
+                        b[42:44] = struct.pack("<H", len(b) - 44)
+                new = bytes(b)
+            else:
+                new = mutate(frame, info, mut)
+        except Exception:  # noqa
+            new = frame
+        state["delivered"] = new
+        sim.fired("reply:" + mut["type"])
+        return new if len(new) > 0 else None
+
+    for m in {env.entry, env.slc}:
+        m.reply_hook = hook
+    f = dict(kind=kind, reply=mut["type"])
+    evals = 0
+    with harness.Seams(sim, net, sc["driver"].get("log", "off")):
+        lib = harness.lib()
+        drv = lib.SLCDriver(sc["driver"]["path"])
+        session.begin_op(env, "o0")
+        o0, r0 = harness.call(sim, drv.open)
+        if o0 == "ok" and r0:
+            # open the CIP connection fault-free first
+            harness.call(sim, drv.read, "N7:0")
+            session.begin_op(env, "o1")
+            state["armed"] = True
+            if kind == "slc_read":
+                outcome, res = harness.call(sim, drv.read, sc["op"]["addr"])
+            else:
+                outcome, res = harness.call(sim, drv.write, (sc["op"]["addr"], sc["op"]["value"]))
+            state["armed"] = False
+            evals = 1
+            if outcome == "budget":
+                hits.hit("C13", "reply.robust", f"{kind}: call did not terminate after a {mut['type']} reply", outcome="hang", **f)
+            elif outcome.startswith("foreign"):
+                hits.hit("C13", "reply.robust", f"{kind}: {type(res).__name__}: {res} escaped after a {mut['type']} reply "
+                         f"({desc(mut)})", outcome="foreign-exception:" + type(res).__name__, **f)
+            elif state["delivered"] is not None and outcome == "ok":
+                d = state["delivered"]
+                c = classify(d, None)
+                ok_tag = res.error is None and res.value is not None
+                sts = d[58] if len(d) > 58 else None
+                short = len(d) < 59
+                bad_status = c["cls"] in ("encap", "status") and mut["type"] in ("encap", "status") and not mut.get("keep_data")
+                if mut["type"] == "pccc_sts" and mut["sts"] != 0:
+                    if ok_tag:
+                        hits.hit("C13", "reply.classify", f"{kind}: PCCC reply with STS 0x{mut['sts']:02x} reported as success: "
+                                 f"{str(res)[:100]}", outcome="truthy-on-error", status="pccc", **f)
+                    elif not (isinstance(res.error, str) and res.error.strip()):
+                        hits.hit("C13", "reply.text", f"{kind}: STS 0x{mut['sts']:02x} gave an empty error text", outcome="empty-error",
+                                 status="pccc", **f)
+                elif short and ok_tag:
+                    hits.hit("C13", "reply.classify", f"{kind}: a reply of {len(d)} bytes, too short to hold its status byte, was "
+                             f"reported as success: {str(res)[:100]}", outcome="truthy-on-short", **f)
+                elif bad_status and ok_tag:
+                    hits.hit("C13", "reply.classify", f"{kind}: error reply ({c}) reported as success: {str(res)[:100]}",
+                             outcome="truthy-on-error", status=c["cls"], **f)
+        session.begin_op(env, "o2")
+        o2, r2 = harness.call(sim, drv.close)
+        if o2 not in ("ok", "library"):
+            hits.hit("C13", "reply.robust", f"close() after the faulty reply -> {o2}: {r2!r}", kind=kind, reply=mut["type"],
+                     outcome=o2 if o2 == "budget" else "foreign-exception:" + type(r2).__name__)
+    shape = (kind, mut["type"], mut.get("sts", mut.get("status", mut.get("at", 0))) if mut["type"] != "truncate" else mut["at"] // 8)
+    return {"hits": hits.items, "digest": sim.digest(), "shape": shape, "probes": dict(sim.probes),
+            "faults": dict(sim.faults_fired), "frames": world.frames_in, "calls": 4, "vtime_us": sim.now_us,
+            "evals": {"C13": evals}, "nontrivial": state["delivered"] is not None,
+            "events": sim.events if sim.keep_events else None}
+
+
+SLC_TABLE = {"0": {"type": "O", "data": "00" * 64}, "1": {"type": "I", "data": "00" * 64}, "2": {"type": "S", "data": "00" * 132},
+             "3": {"type": "B", "data": "5a" * 64}, "7": {"type": "N", "data": "1234" * 32}, "8": {"type": "F", "data": "0000803f" * 8}}
+
+
+def slc_scenario(kind, seed, mut):
+    addr, value = ("N7:3", 77) if seed % 3 == 0 else (("B3/21", True) if seed % 3 == 1 else ("F8:2", 1.5))
+    if kind == "slc_read" and seed % 5 == 0:
+        addr = "N7:1{4}"
+    return {"engine": "replyfault", "seed": seed, "kind": kind,
+            "world": {"layout": "compact", "ip": "10.0.0.1", "table": copy.deepcopy(SLC_TABLE), "io_words": 4,
+                      "policy": {"large_fo": "refuse"}, "choices": {"handles": "small"}},
+            "net": {"chunk": "whole", "send": "all", "latency": "zero"},
+            "driver": {"cls": "SLCDriver", "path": "10.0.0.1", "log": "off", "seq_advance": 0},
+            "op": {"addr": addr, "value": value}, "fault": {"nth": 0, "mut": mut}, "faults": []}
+
+
 def run(sc):
+    if sc["kind"].startswith("slc_"):
+        return run_slc(sc)
     env = build(sc)
     sim, net, world = env.sim, env.net, env.world
     hits = world.hits
@@ -471,7 +580,7 @@ def n_replies(kind):
 
 
 def directed(tier, prop="C13"):
-    out = []
+    out = directed_slc(tier)
     seed = 1
     sts = list(range(256))
     for kind in KINDS:
@@ -554,8 +663,41 @@ def directed(tier, prop="C13"):
     return out
 
 
+def directed_slc(tier):
+    out = []
+    n = 0
+    for kind in ("slc_read", "slc_write"):
+        for sts in range(256):
+            for drop in (False, True):
+                n += 1
+                out.append(slc_scenario(kind, n, {"type": "pccc_sts", "sts": sts, "drop_data": drop}))
+        for st in (list(range(1, 256)) if tier == "thorough" else [1, 4, 5, 6, 8, 0x13, 0x14, 0x1E, 0xFF]):
+            n += 1
+            out.append(slc_scenario(kind, n, {"type": "status", "status": st, "ext": [], "keep_data": False}))
+        for es in (1, 2, 3, 0x64, 0x65, 0x69, 0x10000):
+            n += 1
+            out.append(slc_scenario(kind, n, {"type": "encap", "status": es}))
+        for at in range(0, 72):
+            for fix in (True, False):
+                n += 1
+                out.append(slc_scenario(kind, n, {"type": "truncate", "at": at, "fix_len": fix}))
+    return out
+
+
 def gen(seed, tier, prop="C13"):
     r = Sim(seed).stream("gen")
+    if r.random() < 0.12:
+        kind = r.choice(("slc_read", "slc_write"))
+        c = r.random()
+        if c < 0.4:
+            mut = {"type": "pccc_sts", "sts": r.randrange(256), "drop_data": r.random() < 0.5}
+        elif c < 0.6:
+            mut = {"type": "truncate", "at": r.randrange(0, 80), "fix_len": r.random() < 0.7}
+        elif c < 0.85:
+            mut = {"type": "bitflip", "bits": [r.randrange(0, 8 * 70) for _ in range(r.choice((1, 1, 2, 8)))]}
+        else:
+            mut = {"type": "garbage", "len": r.choice((0, 1, 4, 24, 30, 60, 300)), "keep_header": r.random() < 0.6, "seed": seed}
+        return slc_scenario(kind, seed, mut)
     kind = r.choice(KINDS)
     fw = r.choice((17, 20, 32))
     sc = base_scenario(kind, seed, fw)
@@ -633,4 +775,4 @@ def shrink_candidates(sc):
 
 def sample(sc):
     return {"seed": sc["seed"], "kind": sc["kind"], "op": sc.get("op"), "fault": sc["fault"],
-            "firmware": sc["world"]["identity"]}
+            "firmware": sc["world"].get("identity")}
